@@ -121,7 +121,7 @@ Fixpoint spec_run (cl : list client) (g : store) (ops : list op) (xs : list out)
   end.
 
 Definition spec (i : input) (o : observed) : bool :=
-  match i with Hist cl pol ops => spec_run cl (Store [] [] pol) (located ops) o end.
+  match i with Hist cl pol ops => spec_run cl (Store [] [] pol) (located (designated (p_kopts pol)) ops) o end.
 
 Definition obs_eqb (a b : observed) : bool := list_eqb out_eqb a b.
 
